@@ -200,6 +200,29 @@ def run(report: Report, tier, seed):
     for b in tbad[:2]:
         report.violation(Violation(key=f"typesink:{b['job'][0]}:{b['job'][5]}:{b['job'][6:]}", what=f"type sink {b['job'][0]} <- {b['job'][5]} (in_sub={b['job'][6]}, v{b['job'][7]}, fp={b['job'][8]}): {b['problem']}"[:400],
                                    replay={"input": {"typesink": b["job"]}, "teal": b.get("teal")}, confirmed_native=True))
+    bj = typesinks.body_jobs()
+    with ProcessPoolExecutor(max_workers=16) as ex:
+        br = list(ex.map(typesinks.body_case, bj, chunksize=4))
+    bbad = [r for r in br if r["problem"]]
+    report.bounded.append(Bounded(function="routine bodies whose type disagrees with the declaration (Subroutine of each return type, ABIReturnSubroutine with / without output)",
+                                  contract="rejected with a PyTeal error, or the emitted TEAL keeps stack and type discipline (spec/tealcheck, all clauses)",
+                                  bound=f"{len(typesinks.ROUTINES)} routine kinds x 2 wrong body types x versions 6, 8, 10 x frame pointers default/off", cases=len(br),
+                                  distinct_nontrivial=sum(1 for r in br if not r["accepted"]), failures=len(bbad)))
+    for b in bbad[:2]:
+        report.violation(Violation(key=f"bodysink:{b['job'][0]}:{b['job'][1]}", what=b["problem"][:400], replay={"input": {"bodysink": b["job"]}, "teal": b.get("teal")}, confirmed_native=True))
+    cn = typesinks.ctor_names()
+    with ProcessPoolExecutor(max_workers=16) as ex:
+        cr = list(ex.map(typesinks.ctor_case, cn, chunksize=8))
+    cbad = [r for r in cr if r["problems"]]
+    nacc = sum(len(r["accepted"]) for r in cr)
+    report.ob(Ob(id="O5.6/constructors-x-type-vectors", function="every public expression constructor of pyteal (pt.__all__, App/Box/*Param/*Holding builders, control-flow builders)", kind="E",
+                 status="refuted" if cbad else ("discharged" if nacc >= 100 else "undecided"), backend=f"enumeration({len(cn)} constructors x {{uint64, bytes}}^k, k <= 3, exhaustive)",
+                 detail=f"{sum(r['tried'] for r in cr)} argument vectors tried, {nacc} accepted and compiled; each accepted program applies no opcode to a value of a definitely wrong type (spec/tealcheck over spec/langspec signatures)",
+                 model=[{"constructor": r["name"], **{k: v for k, v in r["problems"][0].items() if k != "teal"}} for r in cbad[:3]] or None))
+    for b in cbad[:2]:
+        p0 = b["problems"][0]
+        report.violation(Violation(key=f"ctor:{b['name']}:{p0['vector']}", what=f"{b['name']} accepts argument types {p0['vector']} ({p0['mode']}, v{p0['version']}) and the emitted TEAL has: {p0['what']}"[:400],
+                                   replay={"input": {"ctor": b["name"]}, "teal": p0["teal"]}, confirmed_native=True))
     report.extra["explanation"] = "E: type lattice and operator signature tables; P: fragment stack-delta clauses (fragcheck); B: abstract interpretation of generated programs"
     report.settle_refuted(lambda fn, obs: fails[0] if fails else None)
     if known:
@@ -226,6 +249,16 @@ def replay(data):
         out = typesinks.case(tuple(nat["input"]["typesink"]))
         print(out["problem"])
         return 1 if out["problem"] else 0
+    if (nat.get("input") or {}).get("bodysink"):
+        from . import typesinks
+        out = typesinks.body_case(tuple(nat["input"]["bodysink"]))
+        print(out["problem"])
+        return 1 if out["problem"] else 0
+    if (nat.get("input") or {}).get("ctor"):
+        from . import typesinks
+        out = typesinks.ctor_case(nat["input"]["ctor"])
+        print([{k: v for k, v in p.items() if k != "teal"} for p in out["problems"]])
+        return 1 if out["problems"] else 0
     spec = (nat.get("input") or {}).get("spec")
     if not spec and not (nat.get("input") or {}).get("abisub"):
         print("no concrete input; refuted:", [x["id"] for x in r.get("refuted", [])])
